@@ -15,6 +15,13 @@ def quiet_driver_logs():
         logging.getLogger('cassandra').addHandler(logging.NullHandler())
 
 
+def before_fork():
+    """Workers are forked: keep the collector from touching (and so copying) every inherited page."""
+    import gc
+    gc.collect()
+    gc.freeze()
+
+
 # ------------------------------------------------------------------ splittings
 def cuts_of_mask(mask, length):
     """bit i of mask set <=> a read boundary after byte i+1 (i in 0..length-2)"""
